@@ -16,9 +16,9 @@ CLAIMED = {
  "C11": dict(text=GEN + "Partial: modular helper and year*size+index carry pattern by engine B; all 42 LoopTyme-backed cycle types by index (wiring per type); solar term stepping; lunar month stepping on the month line of any leap table; lunar/sexagenary years. Not covered: name<->index inverse, lunar week/day/hour, sexagenary month/day/hour, fortunes.",
              note="Assumes: index_of replaced by its engine-B-proved specification in the per-type harnesses; calc_shuo/calc_qi arbitrary (ENV-A); leap table symbolic over a 5-7 year window (ENV-L); LunarMonth::from_ym without the memo cache.",
              technique=ENGB + " + " + BMC),
- "C13": dict(text=GEN + "Partial: civil year/half-year/season/month nesting and month -> days for every year and month (incl. October 1582); lunar year -> months for any leap table (thorough tier). Not covered: lunar month -> days, day -> hour slots, sexagenary month -> days.",
-             note="Assumes: SolarDay::next from the 1st of a month replaced by the reference calendar (lemma 13.L; discharged by C01); ENV-A/ENV-L for the lunar part.",
-             technique=BMC),
+ "C13": dict(text=GEN + "Partial: civil year/half-year/season/month nesting and month -> days for every year and month (incl. October 1582); lunar year -> months for any leap table (thorough tier); lunar month -> its days, lunar day -> 13 slots, sexagenary day -> 12 double-hours, sexagenary month -> days from Jie day to the day before the next (engine B: the listing loops unrolled with the bound proved, the returned vector compared element by element). Not covered: sexagenary year -> months.",
+             note="Assumes: SolarDay::next from the 1st of a month replaced by the reference calendar (lemma 13.L; discharged by C01); ENV-A/ENV-L for the lunar part; for the engine-B lists: month pillar of a day turns at Jie days (C08 08.d), stepping a view moves its day/instant (C11 11.j).",
+             technique=BMC + " + " + ENGB),
  "C14": dict(text=GEN + "Partial: civil weeks — acceptance, week count, first day, start weekday, coverage, seven consecutive days, week-of-date — for every month/date, every start weekday, one job per weekday of the 1st of the month. stepping a civil or lunar week by n (|n| <= 6 / 8) and the first day of a lunar week by engine B; the index of a civil week in its year counted from the week containing January 1 (engine B, search loop unrolled with the bound proved). Not covered: lunar week -> days, week of a lunar date.",
              note="Assumes: day counts relative to the month's 1st (sums of month lengths; discharged by C01) with one concrete representative day count per weekday; small-step SolarDay::next closed form (lemma 14.L); index_of as 32-bit arithmetic (engine B).",
              technique=BMC + " + " + ENGB),
@@ -77,7 +77,7 @@ m = {"version": 1, "setup_cmd": "./setup.sh",
      "hooks": {"guard": "tyme4rs_verif", "enable": "none needed: harnesses live in /verif/harness (path dependency on /repo); no source hooks are compiled in",
                "baseline_off_cmd": "cd /repo && cargo test --workspace --no-fail-fast --offline", "source_commits": [], "add_only": True},
      "engines": [{"name": "kani-harness", "path": "/verif/harness", "serves_properties": list(CLAIMED), "kind_free_text": "engine A: Kani 0.68 / CBMC 6.11 / CaDiCaL bounded model checking of the compiled crate; wrappers generated per run by verifkit/kani.py"},
-                 {"name": "mir2smt", "path": "/verif/mir2smt", "serves_properties": ["C02", "C03", "C06", "C07", "C08", "C09", "C11", "C12", "C15", "C16", "C17", "C19"], "kind_free_text": "engine B: nightly rustc MIR of loop-free integer kernels translated to integer SMT-LIB, decided by z3 and cvc5 (both must agree), translator validated against the native functions on every run"}],
+                 {"name": "mir2smt", "path": "/verif/mir2smt", "serves_properties": ["C02", "C03", "C06", "C07", "C08", "C09", "C11", "C12", "C13", "C14", "C15", "C16", "C17", "C19"], "kind_free_text": "engine B: nightly rustc MIR of loop-free integer kernels translated to integer SMT-LIB, decided by z3 and cvc5 (both must agree), translator validated against the native functions on every run"}],
      "checks": checks, "not_applicable": na,
      "notes": "Every check rebuilds from /repo's working tree in a scratch directory under /tmp that it removes on exit. Genuine defects repaired by fix: commits are listed in known_findings.json (status fixed)."}
 json.dump(m, open('/verif/MANIFEST.json', 'w'), indent=1)
